@@ -31,40 +31,57 @@ def _fn(ctx: Ctx, name: str) -> Func:
 
 def r17_1(ctx: Ctx) -> None:
     f = _fn(ctx, "read_uint64")
-    # the scan loop `for v, l in TABLE:` ; TABLE is a local or a module-level constant
+    # idiom A: the scan loop `for v, l in TABLE:` ; TABLE is a local or a module-level constant
+    # idiom B: `for l in range(K): if first & mask == 0: vlen = l; break; mask >>= 1` (count the leading one bits)
     loops = [n for n in walk(f.node) if isinstance(n, ast.For) and isinstance(n.target, ast.Tuple) and len(n.target.elts) == 2]
-    ctx.need(len(loops) == 1, "class scan loop of read_uint64 not recognised")
-    lp = loops[0]
-    tsrc = lp.iter
-    if isinstance(tsrc, ast.Name) and q.assigned_values(f, tsrc.id):
-        tsrc = q.assigned_values(f, tsrc.id)[0]
-    try:
-        rows = [tuple(r) for r in ctx.ce.eval(tsrc, "archiveinfo")]
-    except (NotConst, TypeError):
-        raise AnalysisError("NUMBER class table of read_uint64 is not a constant")
+    loops_b = [n for n in walk(f.node) if isinstance(n, ast.For) and isinstance(n.target, ast.Name) and isinstance(n.iter, ast.Call) and dotted(n.iter.func) == "range"]
+    ctx.need(len(loops) == 1 or (not loops and len(loops_b) == 1), "class scan loop of read_uint64 not recognised")
+    vl, mk, B, VLEN, MASK, V = [], [], "", "", "", ""
+    if loops:
+        lp = loops[0]
+        tsrc = lp.iter
+        if isinstance(tsrc, ast.Name) and q.assigned_values(f, tsrc.id):
+            tsrc = q.assigned_values(f, tsrc.id)[0]
+        try:
+            rows = [tuple(r) for r in ctx.ce.eval(tsrc, "archiveinfo")]
+        except (NotConst, TypeError):
+            raise AnalysisError("NUMBER class table of read_uint64 is not a constant")
+        V, L = lp.target.elts[0].id, lp.target.elts[1].id
+        cond_pat = f"$B <= {V}"
+    else:
+        lp = loops_b[0]
+        L = lp.target.id
+        try:
+            rng = list(range(*[ctx.ce.eval(a, "archiveinfo") for a in lp.iter.args]))
+        except (NotConst, TypeError):
+            raise AnalysisError("bound of the leading-ones loop of read_uint64 is not a constant")
+        # iteration l tests bit 7-l after l one bits: the class of first bytes <= 0xFF ^ (0x80 >> l)
+        rows = [((0xFF ^ (0x80 >> l)) & 0xFF, l) for l in rng if 0 <= l < 8]
+        cond_pat = "$B & $M == 0"
     ctx.check(rows == spec7z.NUMBER_CLASSES, "R17.1", f, lp, "reader class table equals the format's first-byte table",
-              f"read_uint64's class table {rows} differs from the format table {spec7z.NUMBER_CLASSES}", construct="read_uint64 class table")
-    V, L = lp.target.elts[0].id, lp.target.elts[1].id
+              f"read_uint64's class table {rows} differs from the format table {spec7z.NUMBER_CLASSES} (a first byte outside the table falls through to the default "
+              "extra-byte count: the value is read with the wrong length and every following field is shifted)", construct="read_uint64 class table")
     # roles: first byte B (compared with the row limit), extra-byte count VLEN (assigned the row's count), MASK (halved per skipped row)
     binds = None
-    for n, b in q.find(lp, f"$B <= {V}"):
+    for n, b in q.find(lp, cond_pat):
         binds = b
-    ctx.need(binds is not None, "scan comparison `first_byte <= limit` not found")
+    ctx.need(binds is not None, "scan comparison of read_uint64 (`first_byte <= limit` / `first_byte & mask == 0`) not found")
     B = norm(binds["B"])
+    cond_txt = f"{B} <= {V}" if loops else f"{B} & {norm(binds['M'])} == 0"
     vl = [n for n in ast.walk(lp) if isinstance(n, ast.Assign) and norm(n.value) == L and isinstance(n.targets[0], ast.Name)]
     mk = [n for n in lp.body if isinstance(n, ast.AugAssign) and isinstance(n.op, ast.RShift) and isinstance(n.value, ast.Constant) and n.value.value == 1 and isinstance(n.target, ast.Name)]
     brk = [n for n in ast.walk(lp) if isinstance(n, ast.Break)]
     ok = len(vl) == 1 and len(mk) == 1 and len(brk) == 1
     if ok:
         VLEN, MASK = vl[0].targets[0].id, mk[0].target.id
-        # the assignment and the break are taken exactly when B <= limit; the mask is halved otherwise
+        # the assignment and the break are taken exactly when the row matches; the mask is halved otherwise
         fa = [(norm(cd), pol) for cd, pol in q.facts_at(f, vl[0])]
         fb = [(norm(cd), pol) for cd, pol in q.facts_at(f, brk[0])]
-        ok = (f"{B} <= {V}", True) in fa and (f"{B} <= {V}", True) in fb
+        ok = (cond_txt, True) in fa and (cond_txt, True) in fb and (bool(loops) or norm(binds["M"]) == MASK)
         init = [n for n in walk(f.node) if isinstance(n, ast.Assign) and isinstance(n.targets[0], ast.Name) and n.targets[0].id == MASK and isinstance(n.value, ast.Constant)]
         ok = ok and len(init) == 1 and init[0].value.value == 0x80
-    ctx.check(ok, "R17.1", f, lp, "class scan: first row with first_byte <= limit wins; mask starts at 0x80 and halves per skipped row",
-              "the class scan of read_uint64 is not 'first row with first_byte <= limit; mask >>= 1 per skipped row, starting from 0x80'", construct="read_uint64 scan loop")
+    ctx.check(bool(ok), "R17.1", f, lp, "class scan: first matching row wins; mask starts at 0x80 and halves per skipped row",
+              "the class scan of read_uint64 is not 'first matching row; mask >>= 1 per skipped row, starting from 0x80'", construct="read_uint64 scan loop")
     # first byte: one byte read from the file
     bsrc = q.assigned_values(f, B) if B.isidentifier() else []
     ok = bool(bsrc) and any(isinstance(c, ast.Call) and attr_tail(c) in ("read", "read_byte") for v in bsrc for c in ast.walk(v))
@@ -414,6 +431,8 @@ def r17_6(ctx: Ctx) -> None:
 
 
 def run(ctx: Ctx) -> None:
+    from . import c06 as _c06
+    _c06.r06_13(ctx, rule="R17.9")
     r17_1(ctx)
     r17_2(ctx)
     r17_3(ctx)
